@@ -276,6 +276,35 @@ Proof.
   - split; [intros _; right; discriminate|reflexivity].
 Qed.
 
+(* C9 *)
+Definition P_relay_ex (q : req) (E : list event) : Prop :=
+  E = [] \/
+  (if is_qhijack q then count is_contact E = 0
+   else count is_contact E = want_contacts q /\ find_resmod E = Some (want_status q)).
+
+Lemma cl_relay_ex_iff q E : cl_relay_ex q E = true <-> P_relay_ex q E.
+Proof.
+  unfold P_relay_ex. destruct E as [|e0 E0]; [split; auto|].
+  remember (e0 :: E0) as E eqn:HE.
+  assert (Hc : cl_relay_ex q E =
+               (if is_qhijack q then Nat.eqb (count is_contact E) 0
+                else Nat.eqb (count is_contact E) (want_contacts q)
+                     && match find_resmod E with
+                        | Some (st, w) => Nat.eqb st (fst (want_status q)) && Nat.eqb w (snd (want_status q))
+                        | None => false
+                        end)).
+  { subst E. reflexivity. }
+  rewrite Hc. destruct (is_qhijack q).
+  - rewrite Nat.eqb_eq. split; [auto|]. intros [H|H]; [subst E; discriminate H|exact H].
+  - rewrite andb_true_iff, Nat.eqb_eq. split.
+    + intros [H1 H2]. right. split; [exact H1|].
+      destruct (find_resmod E) as [[st w]|]; [|discriminate H2].
+      apply andb_true_iff in H2. destruct H2 as [Ha Hb]. apply Nat.eqb_eq in Ha, Hb.
+      destruct (want_status q) as [a b]. cbn in Ha, Hb. subst. reflexivity.
+    + intros [H|[H1 H2]]; [subst E; discriminate H|]. split; [exact H1|].
+      rewrite H2. destruct (want_status q) as [a b]. cbn. rewrite !Nat.eqb_refl. reflexivity.
+Qed.
+
 (* per-request lifting *)
 Lemma per_req_iff f : forall reqs b T,
   per_req f b reqs T = true <->
@@ -302,7 +331,8 @@ Record conn_good (k b : nat) (reqs : list req) (T : list event) : Prop := mkGood
     g_session : P_session k T;
     g_linked : P_linked T;
     g_error : forall i q, nth_error reqs i = Some q -> P_error_ex q (ex (b + i) T);
-    g_skip : forall i q, nth_error reqs i = Some q -> P_skip_ex q (ex (b + i) T) }.
+    g_skip : forall i q, nth_error reqs i = Some q -> P_skip_ex q (ex (b + i) T);
+    g_relay : forall i q, nth_error reqs i = Some q -> P_relay_ex q (ex (b + i) T) }.
 
 Lemma negb_if_none {A} (c : bool) (x : A) (y : option A) :
   (if negb c then Some x else y) = None <-> c = true /\ y = None.
@@ -312,21 +342,23 @@ Lemma conn_fail_iff k b reqs T : conn_fail k b reqs T = None <-> conn_good k b r
 Proof.
   unfold conn_fail. rewrite !negb_if_none.
   rewrite scope_iff, cl_hijack_iff, cl_session_iff, cl_linked_iff.
-  unfold cl_reqmod, cl_resmod, cl_error, cl_skip. rewrite !per_req_iff.
+  unfold cl_reqmod, cl_resmod, cl_error, cl_skip, cl_relay. rewrite !per_req_iff.
   split.
-  - intros [H1 [H2 [H3 [H4 [H5 [H6 [H7 [H8 _]]]]]]]].
+  - intros [H1 [H2 [H3 [H4 [H5 [H6 [H7 [H8 [H9 _]]]]]]]]].
     constructor; auto; intros i q Hn.
     + apply cl_reqmod_ex_iff. exact (H3 i q Hn).
     + apply cl_resmod_ex_iff, H4, Hn.
     + apply cl_error_ex_iff, H7, Hn.
     + apply cl_skip_ex_iff, H8, Hn.
-  - intros [H1 H2 H3 H4 H5 H6 H7 H8].
-    refine (conj H1 (conj H2 (conj _ (conj _ (conj H5 (conj H6 (conj _ (conj _ eq_refl))))))));
+    + apply cl_relay_ex_iff, H9, Hn.
+  - intros [H1 H2 H3 H4 H5 H6 H7 H8 H9].
+    refine (conj H1 (conj H2 (conj _ (conj _ (conj H5 (conj H6 (conj _ (conj _ (conj _ eq_refl)))))))));
       intros i q Hn.
     + apply cl_reqmod_ex_iff. exact (H3 i q Hn).
     + apply cl_resmod_ex_iff, H4, Hn.
     + apply cl_error_ex_iff, H7, Hn.
     + apply cl_skip_ex_iff, H8, Hn.
+    + apply cl_relay_ex_iff, H9, Hn.
 Qed.
 
 Fixpoint conns_good (k b : nat) (conns : list (list req)) (Ts : list (list event)) : Prop :=
